@@ -1065,7 +1065,7 @@ def gen_scan_case(rng, kind):
     elif kind == 'carry_mismatch':
       if rng.random() < 0.5:
         case['out_axes'] = {'t': [p for p in outp if p != 'carry'] or [0]}
-        case['prog'] = {'stmts': prog['stmts'], 'outs': [o for o in outs if o[0] not in ('carry', 'acarry')] or [['tot', var_refs(args)[0], 1]]}
+        case['prog'] = {'stmts': prog['stmts'], 'outs': [o for o in outs if o[0] not in ('carry', 'acarry')] or [['tot', (var_refs(args) + [['a', i] for i, a in enumerate(args) if 'arr' in a])[0], 1]]}
       else:
         prefixes = list(prefixes)
         prefixes[cpos] = 0 if 'arr' in args[cpos] else rng.choice([0, None])
